@@ -539,8 +539,8 @@ Definition disconnect_wake (c : conn) (a : after_disc) (ok : bool) (s : pool) : 
   let s1 := set_cur (s.(cur) - 1) s in
   match a with
   | ADTransfer to =>
-      if ok then call_connect to (set_cur (s1.(cur) + 1) s1)
-      else s1                                   (* the _transfer task dies with the exception *)
+      (* _transfer swallows an exception of _disconnect (fix 275590b) and carries on *)
+      call_connect to (set_cur (s1.(cur) + 1) s1)
   | ADDiscard (Some t) _ => push (KGatherCb t) s1
   | ADDiscard None _ => s1
   end.
